@@ -151,8 +151,8 @@ PROPS = {
              "request timeouts with stalled backends, backend connections killed mid-run; oracle: every delivered reply equals the token-matched backend "
              "reply (or merge) for that client's request at that position or is a proxy error; missing replies are not this property's business; "
              "non-trivial = an unroutable request, a client disconnect or a backend kill actually occurred",
-        quick=dict(budget_s=80, profiles=[P("C03", 600)]),
-        thorough=dict(budget_s=1800, profiles=[P("C03", 40000)]),
+        quick=dict(budget_s=80, profiles=[P("C03", 450), P("C03", 250, "swarm")]),
+        thorough=dict(budget_s=1800, profiles=[P("C03", 25000), P("C03", 20000, "swarm")]),
         reach=["c03_unroutable_replies", "c03_client_disconnects", "backend_conn_killed"],
     ),
     "C14": dict(
